@@ -183,7 +183,9 @@ pub fn oracle_files(ctx: &mut Ctx) {
             a1.extend(["-q".to_string(), "--out".to_string(), "s1.png".to_string(), "in.png".to_string()]);
             let r1 = run_bin(&w, &a1);
             let Some((_, o)) = canon_dump(&r1.dump) else { st.count("stdout_flags_rejected"); continue; };
-            if o.force || r1.status != Some(0) { st.count("stdout_skipped"); continue; }
+            // "unless output is forced" = unless the user passed --force (not: whatever the binary made of the flags)
+            let _ = &o;
+            if fv.tokens.iter().any(|t| t == "force") || r1.status != Some(0) { st.count("stdout_skipped"); continue; }
             let mut stage2 = std::fs::read(w.join("s1.png")).unwrap_or(case.input.clone());
             let mut shape = "own-output";
             if rng.bool() {
